@@ -18,7 +18,7 @@ use crate::util::{catch, is_injected, payload_str, Json, Rng};
 use crate::validate;
 use hashbrown::hash_map::{Entry, RawEntryMut};
 
-pub const C04_PAIRS: [&str; 6] = ["T24xT24", "P8xP8", "P8xT24", "T24xZ", "B1xB1", "L200xB1"];
+pub const C04_PAIRS: [&str; 8] = ["T24xT24", "P8xP8", "P8xT24", "T24xZ", "B1xB1", "L200xB1", "L600xB1", "P8xL600"];
 
 #[derive(Clone, Copy, Debug)]
 pub enum Recipe {
@@ -596,7 +596,9 @@ fn pick_op<K: Elem, V: Elem>(rng: &mut Rng, d: &MapDrv<K, V>) -> FOp {
 
 /// Builds the clone_from target for `CloneFrom(kind)`: 0 unallocated, 1 same buckets, 2 larger, 3 smaller with tombstones.
 fn build_other<K: Elem, V: Elem>(kind: u8, d: &MapDrv<K, V>) -> Map<K, V> {
-    let bh = d.bh;
+    // the target hashes with its own state (same plan, so equally lawful; another salt in two cases out of three):
+    // after clone_from - also one that unwinds - the target must be consistent with whatever hasher it ends up holding
+    let bh = if d.map.len() % 3 != 0 { crate::plan::PlanBH::new(d.bh.plan, d.bh.salt ^ 0x5eed_0f_7a46e7) } else { d.bh };
     // the target lives on its own allocator instance
     let other_alloc = crate::ckalloc::CkAlloc { id: 9 };
     let mut t: Map<K, V> = match kind {
@@ -847,8 +849,20 @@ fn one_fault<K: Elem, V: Elem>(c: &mut Ctx, spec: &StateSpec, op: &FOp, class: C
         }
     }
     if let (Some(t), Some(_)) = (other.as_ref(), pre_other) {
-        // clone_from target: whatever it holds must be checksummed live elements (checked above) and consistent
-        let _ = t.len();
+        // clone_from target: whatever it holds must be checksummed live elements (checked above) and consistent:
+        // a valid collection, len() == number yielded == number its own lookups find
+        let td = t.verif_dump();
+        validate::check_safety(&td, &format!("{} (clone_from target)", what));
+        let yielded: Vec<u32> = t.iter().map(|(k, v)| {
+            k.check();
+            v.check();
+            k.id()
+        }).collect();
+        crate::check!(yielded.len() == t.len(), "{}: the clone_from target has len() {} but yields {} entries", what, t.len(), yielded.len());
+        if d.lawful {
+            let found = yielded.iter().filter(|id| t.get(&KeyRef(**id)).is_some()).count();
+            crate::check!(found == yielded.len(), "{}: the clone_from target yields {} entries but its own lookups find only {} of them (len() = {})", what, yielded.len(), found, t.len());
+        }
     }
     // ---- keep using the collection, then drop it ----
     let use_r = catch(|| {
